@@ -157,6 +157,50 @@ theorem ordered_progress (rank : Nat → Nat) (N : Nat) (hN : ∀ i, rank i < N)
   intro it rest lk _ _
   omega
 
+/-! ### the same at the level of lock states: no wait-for cycle -/
+
+theorem chain_rank_lt (L : LockState) (rank : Nat → Nat) (h : L.orderedBy rank) :
+    ∀ (rest : List Nat) (x z lx lz : Nat), L.chain (x :: rest ++ [z]) → L.waits x = some lx → L.waits z = some lz →
+      rank lx < rank lz := by
+  intro rest
+  induction rest with
+  | nil =>
+    intro x z lx lz hc hx hz
+    obtain ⟨l, hw, hl⟩ := hc.1
+    rw [hx] at hw; cases hw
+    exact h z lz hz lx hl
+  | cons y r ih =>
+    intro x z lx lz hc hx hz
+    obtain ⟨l, hw, hl⟩ := hc.1
+    rw [hx] at hw; cases hw
+    have hc2 : L.chain (y :: r ++ [z]) := hc.2
+    -- `y` waits too: it has a successor in the chain
+    have hy : ∃ ly, L.waits y = some ly := by
+      cases r with
+      | nil => obtain ⟨l', hw', _⟩ := hc2.1; exact ⟨l', hw'⟩
+      | cons y2 r2 => obtain ⟨l', hw', _⟩ := hc2.1; exact ⟨l', hw'⟩
+    obtain ⟨ly, hly⟩ := hy
+    have h1 := h y ly hly lx hl
+    have h2 := ih y z ly lz hc2 hly hz
+    omega
+
+theorem ordered_no_wait_cycle (L : LockState) (rank : Nat → Nat) (h : L.orderedBy rank) (a : Nat) (path : List Nat) :
+    ¬ L.chain (a :: path ++ [a]) := by
+  intro hc
+  have ha : ∃ la, L.waits a = some la := by
+    cases path with
+    | nil => obtain ⟨l', hw', _⟩ := hc.1; exact ⟨l', hw'⟩
+    | cons y r => obtain ⟨l', hw', _⟩ := hc.1; exact ⟨l', hw'⟩
+  obtain ⟨la, hla⟩ := ha
+  have := chain_rank_lt L rank h path a a la la hc hla hla
+  omega
+
+/-- the no-nesting protocol is the special case: whoever waits holds nothing -/
+theorem orderedBy_of_noNested (L : LockState) (rank : Nat → Nat) (h : L.noNested) : L.orderedBy rank := by
+  intro t l hw x hx
+  have : L.holds t = [] := h t (by rw [hw]; simp)
+  rw [this] at hx; cases hx
+
 /-! ### from the shape table to programs -/
 
 theorem stackOrdered_snoc (rank : Nat → Nat) (h : List Lock) (lk : Lock) :
@@ -224,6 +268,29 @@ theorem respects_of_respectsB (us : List Nat) (sched : List Nat) :
       have := h1 u hm l hl
       simpa using this
     · simp [Cfg.holds, hidle u hm] at hl
+
+/-! ### decidable forms for finitely many active threads -/
+
+theorem exec_keeps_idle (us : List Nat) (sched : List Nat) :
+    ∀ c : Cfg ι σ ρ, (∀ u, u ∉ us → c.thr u = []) → ∀ u, u ∉ us → (exec c sched).thr u = [] := by
+  induction sched with
+  | nil => intro c h; exact h
+  | cons t r ih => intro c h; rw [exec_cons]; exact ih _ (step_keeps_idle c t us h)
+
+/-- nobody holds a lock, checked for the threads in `us` -/
+def quiescentB (c : Cfg ι σ ρ) (us : List Nat) : Bool := us.all (fun u => (c.holds u).isEmpty)
+
+theorem quiescent_of_quiescentB (c : Cfg ι σ ρ) (us : List Nat) (hidle : ∀ u, u ∉ us → c.thr u = [])
+    (h : quiescentB c us = true) : ∀ u, c.holds u = [] := by
+  intro u
+  by_cases hm : u ∈ us
+  · have := List.all_eq_true.mp h u hm
+    simpa using this
+  · simp [Cfg.holds, hidle u hm]
+
+theorem init_idle (prog : ι → Prog σ ρ) (ops : Nat → List ι) (s0 : σ) (us : List Nat) (h : ∀ u, u ∉ us → ops u = []) :
+    ∀ u, u ∉ us → (init prog ops s0).thr u = [] := by
+  intro u hu; simp [init, h u hu]
 
 /-! ## nested sections: simulation by the fused (atomic) operations -/
 
@@ -601,20 +668,29 @@ theorem nrel_exec (sched : List Nat) :
       rw [exec_cons]
       exact ih _ _ this h2
 
-theorem nrel_init (hK : K.describes prog) (hgood : ∀ i, K.is i = false → K.good (prog i))
-    (ops : Nat → List ι) (s0 : σ) : NRel K prog (init prog ops s0) (init (K.fuse prog) ops s0) := by
-  refine .free rfl (fun _ => rfl) ?_
-  intro u
-  simp only [init]
-  induction ops u with
+theorem ntail_init (hK : K.describes prog) (l : List ι) (hgood : ∀ i, i ∈ l → K.is i = false → K.good (prog i)) :
+    NTail K prog (l.map (fun i => ({ op := i, rem := prog i, pc := 0 } : Item ι σ ρ)))
+      (l.map (fun i => ({ op := i, rem := K.fuse prog i, pc := 0 } : Item ι σ ρ))) := by
+  induction l with
   | nil => trivial
   | cons i is ih =>
-    refine ⟨?_, ih⟩
+    refine ⟨?_, ih (fun j hj => hgood j (by simp [hj]))⟩
     by_cases hi : K.is i = true
     · exact Or.inr ⟨hi, hK i hi, rfl, rfl, rfl⟩
     · have hi' : K.is i = false := by simpa using hi
-      refine Or.inl ⟨hi', ?_, rfl, hgood i hi'⟩
+      refine Or.inl ⟨hi', ?_, rfl, hgood i (by simp) hi'⟩
       simp [NestOps.fuse, hi']
+
+theorem nrel_init (hK : K.describes prog) (ops : Nat → List ι)
+    (hgood : ∀ t i, i ∈ ops t → K.is i = false → K.good (prog i)) (s0 : σ) :
+    NRel K prog (init prog ops s0) (init (K.fuse prog) ops s0) :=
+  .free rfl (fun _ => rfl) (fun u => ntail_init K prog hK (ops u) (hgood u))
+
+theorem run_nested (i : ι) (s : σ) : (K.nested i).run s = K.eff i s := by
+  simp only [NestOps.nested, Prog.run, NestOps.eff]
+  cases K.early i (K.L.get s) with
+  | some r => simp [Prog.run]
+  | none => simp [NestOps.inner, NestOps.tail, Prog.run]
 
 /-- what the relation says when no thread is inside a nested section -/
 theorem nrel_quiescent {c a : Cfg ι σ ρ} (h : NRel K prog c a) (hq : ∀ u, c.holds u = []) :
